@@ -29,6 +29,7 @@ type readScen struct {
 	full           bool  // run the whole catalogue (else the short list)
 	sweep          []int // stream truncation points (bytes kept) swept in addition
 	answers        bool  // illegal request: the host answers it as if it were fine
+	observe        bool  // outcome recorded, not judged, not sent to the model
 }
 
 type readSt struct {
@@ -98,6 +99,17 @@ func (w *world) readScenarios() []readScen {
 	sw("truncation/whole-all-zero-sector", r0, zero, 0, sectorSize, whole)
 	sw("truncation/second-half-of-zero-tail-sector", rz, z, sectorSize/2, sectorSize/2, []int{0, 64, 100, 4096, sectorSize/2 - 64, sectorSize/2 - 1})
 
+	for _, ps := range priceSpread {
+		sc := mk(ps.name, ra, a, a, b, 4096, 4096, false)
+		sc.prices = w.pricesWith(ps.v)
+		s = append(s, sc)
+	}
+	// a validly signed price table whose cost does not fit a Currency: core's arithmetic
+	// panics; recorded as an observation (the caller chose to use this table), not judged
+	ov := mk("prices-overflowing-observed-only", ra, a, a, b, 0, 64, false)
+	ov.prices, ov.observe = w.pricesWith(types.MaxCurrency), true
+	s = append(s, ov)
+
 	// illegal arguments against a host that answers as if the request were fine
 	for _, q := range []struct {
 		n      string
@@ -112,6 +124,9 @@ func (w *world) readScenarios() []readScen {
 }
 
 func readCorrs(sc *readScen) []corr {
+	if sc.observe {
+		return []corr{honestCorr}
+	}
 	valid := sc.auth && sc.length > 0 && sc.offset <= sectorSize && sc.length <= sectorSize-sc.offset && (sc.offset+sc.length)%leafSize == 0
 	if !valid {
 		if sc.answers {
@@ -244,7 +259,7 @@ func readCorrs(sc *readScen) []corr {
 }
 
 func (w *world) runRead(sc *readScen, c corr) *result {
-	r := &result{rpc: "read", scen: sc.name, corr: c.name}
+	r := &result{rpc: "read", scen: sc.name, corr: c.name, observe: sc.observe}
 	var out bytes.Buffer
 	var res rhp4.RPCReadSectorResult
 	var err error
@@ -362,10 +377,16 @@ func (w *world) writeScenarios() []writeScen {
 		}
 		return writeScen{name: name, data: d, length: n, prices: w.prices, auth: true}
 	}
-	s := []writeScen{
+	s := []writeScen{}
+	for _, ps := range priceSpread {
+		sc := mk(ps.name, 4096)
+		sc.prices = w.pricesWith(ps.v)
+		s = append(s, sc)
+	}
+	s = append(s,
 		mk("one-leaf", 64), mk("three-leaves", 192), mk("4k", 4096), mk("half-sector-plus-leaf", sectorSize/2+64), mk("whole-sector", sectorSize),
 		mk("invalid-zero", 0), mk("invalid-too-long", sectorSize+64), mk("invalid-unaligned", 100),
-	}
+	)
 	e := mk("expired-prices", 64)
 	e.prices, e.auth = w.badPrices, false
 	return append(s, e)
@@ -409,6 +430,11 @@ func writeCorrs(sc *writeScen) []corr {
 		st.resp.Root = proto4.SectorRoot(&s)
 	})
 	add("root-of-first-leaf-only", func(st *writeSt) { st.resp.Root = padRoot(st.got[:64]) })
+	for _, n := range []uint64{0, 64, sc.length / 2} {
+		if n < sc.length {
+			cs = append(cs, corr{name: fmt.Sprintf("upload-abort/host-closes-after-reading-%d-bytes", n), msg: 8, typed: func(any) {}})
+		}
+	}
 	cs = append(cs, corr{name: "msg1/answers-before-reading-data-right-root", msg: 0})
 	cs = append(cs, corr{name: "msg1/answers-before-reading-data-wrong-root", msg: 0})
 	if sc.length > 1<<20 && !thoroughTier {
@@ -438,6 +464,12 @@ func (w *world) runWrite(sc *writeScen, c corr) *result {
 			}
 			x.send(s, encode(&proto4.RPCWriteSectorResponse{Root: root}))
 			io.Copy(io.Discard, io.LimitReader(s, int64(req.DataLength)))
+			return
+		}
+		if c.msg == 8 {
+			var n uint64
+			fmt.Sscanf(c.name, "upload-abort/host-closes-after-reading-%d-bytes", &n)
+			io.CopyN(io.Discard, s, int64(n))
 			return
 		}
 		got := make([]byte, req.DataLength)
